@@ -207,13 +207,21 @@ def _fresh_only(spec, summary):
 PADS = (0,)   # heap layouts each graph is built under (thorough: also after a freed throw-away graph)
 
 
-def work(item):
+def _specs_of(item):
+  if item[0] == "ss":
+    from vk.checks import c08
+    yield from c08.ss_specs(item)
+    return
   n, edges, vars_, D, maxcond = item
+  for origins, conds in specs_for(item):
+    yield to_spec(n, edges, vars_, origins, conds)
+
+
+def work(item):
   stats = {}
   viol = []
   nspec = 0
-  for origins, conds in specs_for(item):
-    spec = to_spec(n, edges, vars_, origins, conds)
+  for spec in _specs_of(item):
     nspec += 1
     bad = []
     for pad in PADS:
@@ -253,6 +261,10 @@ def items_for(tier):
     add(3, 2, 2, True, 3, 2)
     add(4, 2, 2, True, 1, 1)
     add(4, 3, 3, False, 2, 1)
+  # source-set family (defined with C08, where it drives the query-order phase): 4-node graphs, one origin per
+  # binding with any source set of <=2 other bindings, <=1 conditioned node
+  from vk.checks import c08
+  items += c08.ss_items(tier)
   return items
 
 
@@ -276,7 +288,9 @@ def run(rep, tier, seed):
     if tot.get(k):
       rep.outcome(k, tot[k])
   rep.cov.update({"graphs": tot.get("specs", 0), "work_items": len(items), "heap_layouts_per_graph": list(PADS),
-                  "bounds": "tier=%s; see vk/checks/c07.py items_for: (nodes, bindings, variables, cyclic, deviations D, max conditions)" % tier})
+                  "bounds": "tier=%s; see vk/checks/c07.py items_for: (nodes, bindings, variables, cyclic, deviations D, max conditions); plus "
+                            "the source-set family of vk/checks/c08.py ss_items (4 nodes, 3 bindings, one origin each with any "
+                            "source set of <=2 other bindings, <=1 condition)" % tier})
   rep.rule = ("every typegraph = edge subset x binding->variable assignment x one origin per binding x all "
               "<=D deviations (extra origin, extra source-set member, extra source set, node condition); "
               "every node x every binding subset of size<=3 queried via HasCombination/CanHaveCombination/"
